@@ -16,7 +16,9 @@ const FAULTS: [PointFault; 3] = [PointFault::MftStale, PointFault::CrlStale, Poi
 const POLICIES: [Stale; 3] = [Stale::Reject, Stale::Warn, Stale::Accept];
 
 #[derive(Clone, Debug)]
-pub struct CaseSpec { subset: u8, fault: PointFault, policy: Stale, stored_path: bool }
+pub struct CaseSpec { subset: u8, fault: PointFault, policy: Stale, stored_path: bool,
+    /// 0: policy field set directly; 1: read from a configuration file; 2: given on the command line
+    source: u8 }
 
 fn policy(p: Stale) -> FilterPolicy {
     match p { Stale::Reject => FilterPolicy::Reject, Stale::Warn => FilterPolicy::Warn, Stale::Accept => FilterPolicy::Accept }
@@ -34,8 +36,11 @@ pub fn cases() -> Vec<CaseSpec> {
     let mut res = Vec::new();
     for subset in 1..8u8 { for fault in FAULTS { for policy in POLICIES { for stored_path in [false, true] {
         if fault == PointFault::MftPremature && stored_path { continue }
-        res.push(CaseSpec { subset, fault, policy, stored_path });
+        res.push(CaseSpec { subset, fault, policy, stored_path, source: 0 });
     }}}}
+    for fault in FAULTS { for policy in POLICIES { for source in [1, 2] {
+        res.push(CaseSpec { subset: 2, fault, policy, stored_path: false, source });
+    }}}
     res
 }
 
@@ -52,14 +57,15 @@ pub fn run_case(gen: &Gen, dir: std::path::PathBuf, c: &CaseSpec) -> Result<Stri
     case.write_tals(&image);
     let mut config = case.config();
     let err = |e: String| ("run-failed".to_string(), e);
+    let wanted = match c.source { 0 => policy(c.policy), s => policy_via(&case.dir.join("policy"), c.policy, s == 1)? };
     let out = if c.stored_path {
         // run 1 under accept puts the stale versions into the store
         config.stale = FilterPolicy::Accept;
         etree::run(&config, false, &LocalExceptions::empty()).map_err(err)?;
-        config.stale = policy(c.policy);
+        config.stale = wanted;
         etree::run(&config, true, &LocalExceptions::empty()).map_err(err)?
     } else {
-        config.stale = policy(c.policy);
+        config.stale = wanted;
         etree::run(&config, false, &LocalExceptions::empty()).map_err(err)?
     };
     let served = payload_set(&out.data);
@@ -77,8 +83,8 @@ pub fn run_case(gen: &Gen, dir: std::path::PathBuf, c: &CaseSpec) -> Result<Stri
             Truth::Must if !served.contains(&t.payload) => {
                 let class = if faulted.contains(&t.ca.as_str()) || c.policy != Stale::Reject { "stale-dropped-under-warn-or-accept" } else { "unrelated-ca-dropped" };
                 return Err((class.into(), format!(
-                    "{:?} on {faulted:?}, policy {:?}, {} path: {} of {} is not served",
-                    c.fault, c.policy, if c.stored_path { "stored" } else { "fetch" },
+                    "{:?} on {faulted:?}, policy {:?}{}, {} path: {} of {} is not served",
+                    c.fault, c.policy, ["", " (from the configuration file)", " (from the command line)"][c.source as usize], if c.stored_path { "stored" } else { "fetch" },
                     data::fmt_payload(&t.payload), t.ca
                 )))
             }
@@ -89,34 +95,85 @@ pub fn run_case(gen: &Gen, dir: std::path::PathBuf, c: &CaseSpec) -> Result<Stri
     Ok(format!("served={}", served.len()))
 }
 
-/// Real ageing: a manifest that becomes stale between two runs.
-fn ageing_case(gen: &Gen, dir: std::path::PathBuf, pol: Stale) -> Result<String, (String, String)> {
-    let mut spec = rpkigen::base_tree();
-    spec.tals[0].ca.find_mut("ca1").unwrap().mft_next_update = 3;
-    let image = Builder::new(gen, Stale::Accept).build(&spec);
+/// Real ageing: a manifest or CRL of `ca1` whose nextUpdate passes between
+/// two runs - on a fresh engine per run (one-shot commands) or on one
+/// engine used for both (the server) - with the publication unchanged
+/// (stored path) or replaced by a newer version with the same nextUpdate
+/// (fetch path).
+#[derive(Clone, Debug)]
+pub struct Ageing { pol: Stale, reuse_engine: bool, crl: bool, republish: bool }
+
+const AGE: i64 = 8;
+
+fn ageing_cases() -> Vec<Ageing> {
+    let mut res = Vec::new();
+    for pol in POLICIES { for reuse_engine in [false, true] { for crl in [false, true] { for republish in [false, true] {
+        res.push(Ageing { pol, reuse_engine, crl, republish });
+    }}}}
+    res
+}
+
+fn ageing_case(gen: &Gen, dir: std::path::PathBuf, c: &Ageing) -> Result<String, (String, String)> {
+    let now = rpki::repository::x509::Time::now();
+    let started = std::time::Instant::now();
+    let tree = |number: u64| {
+        let mut spec = rpkigen::base_tree();
+        let ca = spec.tals[0].ca.find_mut("ca1").unwrap();
+        if c.crl { ca.crl_next_update = AGE } else { ca.mft_next_update = AGE }
+        ca.mft_number = number;
+        ca.mft_this_update += 60 * (number as i64 - 1);
+        spec
+    };
+    let image = Builder::at(gen, Stale::Accept, now).build(&tree(1));
+    let image2 = Builder::at(gen, Stale::Accept, now).build(&tree(2));
     let case = Case::new(dir);
     case.publish(&image);
     case.write_tals(&image);
     let mut config = case.config();
-    config.stale = policy(pol);
+    config.stale = policy(c.pol);
     let err = |e: String| ("run-failed".to_string(), e);
-    let r1 = etree::run(&config, false, &LocalExceptions::empty()).map_err(err)?;
+    let engine = etree::engine(&config, false).map_err(err)?;
+    let r1 = etree::run_on(&engine, &config, &LocalExceptions::empty()).map_err(err)?;
     let all: BTreeSet<Payload> = image.truth.iter().map(|t| t.payload.clone()).collect();
     if payload_set(&r1.data) != all {
-        return Err(("ageing-setup".into(), "fresh manifest not fully served".into()))
+        return Err(("harness".into(), "fresh manifest not fully served".into()))
     }
-    std::thread::sleep(std::time::Duration::from_secs(4));
-    let r2 = etree::run(&config, false, &LocalExceptions::empty()).map_err(err)?;
+    std::thread::sleep(std::time::Duration::from_secs(AGE as u64 + 1).saturating_sub(started.elapsed()));
+    if c.republish { case.publish(&image2); }
+    let r2 = if c.reuse_engine { etree::run_on(&engine, &config, &LocalExceptions::empty()) }
+        else { etree::run(&config, false, &LocalExceptions::empty()) }.map_err(err)?;
     let served = payload_set(&r2.data);
     let sub: BTreeSet<Payload> = image.truth.iter().filter(|t| t.ca == "ca1" || t.ca == "gc2").map(|t| t.payload.clone()).collect();
-    let want: BTreeSet<Payload> = if pol == Stale::Reject { all.difference(&sub).cloned().collect() } else { all.clone() };
+    let want: BTreeSet<Payload> = if c.pol == Stale::Reject { all.difference(&sub).cloned().collect() } else { all.clone() };
     if served != want {
-        return Err(("ageing".into(), format!(
-            "manifest aged past nextUpdate under {pol:?}: served {} items, expected {}", served.len(), want.len()
+        let class = if served.len() > want.len() { "stale-served-under-reject" } else { "stale-dropped-under-warn-or-accept" };
+        return Err((class.into(), format!(
+            "{} of ca1 aged past nextUpdate between two runs ({}, {}) under {:?}: served {} items, expected {}",
+            if c.crl { "CRL" } else { "manifest" }, if c.reuse_engine { "same engine" } else { "fresh engine" },
+            if c.republish { "newer version published" } else { "publication unchanged" }, c.pol, served.len(), want.len()
         )))
     }
     let _ = std::fs::remove_dir_all(&case.dir);
-    Ok(format!("aged:{pol:?}"))
+    Ok(format!("aged:{:?}", c.pol))
+}
+
+/// Where the policy comes from: the configuration file or the command line
+/// (real parsing), instead of the field being set directly.
+fn policy_via(dir: &std::path::Path, pol: Stale, from_file: bool) -> Result<FilterPolicy, (String, String)> {
+    use clap::Command;
+    use routinator::config::Config;
+    let word = match pol { Stale::Reject => "reject", Stale::Warn => "warn", Stale::Accept => "accept" };
+    std::fs::create_dir_all(dir).map_err(|e| ("harness".to_string(), e.to_string()))?;
+    let file = dir.join("policy.conf");
+    let mut base = crate::data::mem_config();
+    if from_file { base.stale = policy(pol); }
+    std::fs::write(&file, base.to_string()).map_err(|e| ("harness".to_string(), e.to_string()))?;
+    let mut args = vec!["routinator".to_string(), "-c".into(), file.display().to_string()];
+    if !from_file { args.extend(["--stale".to_string(), word.to_string()]); }
+    let matches = Config::config_args(Command::new("routinator")).try_get_matches_from(&args)
+        .map_err(|e| ("harness".to_string(), e.to_string()))?;
+    let config = Config::from_arg_matches(&matches, dir).map_err(|_| ("harness".to_string(), "configuration rejected".to_string()))?;
+    Ok(config.stale)
 }
 
 pub fn run(ctx: &Ctx) -> Report {
@@ -130,8 +187,13 @@ pub fn run(ctx: &Ctx) -> Report {
         empty cache; stored: run 1 under accept stores it, run 2 offline \
         under the policy}; oracle: reject => the CA and all descendants \
         contribute nothing and everything else is served; warn/accept => \
-        everything served; premature never accepted; thorough adds a \
-        manifest that really ages past nextUpdate between two runs; \
+        everything served; premature never accepted; for one CA also \
+        with the policy read from a configuration file and from the \
+        command line (real parsing) instead of being set directly; plus \
+        real ageing: ca1's manifest / CRL passes its nextUpdate (8 s) \
+        between two runs, on a fresh engine per run and on one engine \
+        used for both (as the server does), with the publication \
+        unchanged or replaced by a newer version, under each policy; \
         non-trivial = all (every case carries a fault)".into();
     rep.bound = format!("{} cases", cases.len());
     let threads = std::env::var("ETREE_THREADS").ok().and_then(|s| s.parse().ok()).unwrap_or(8);
@@ -147,16 +209,24 @@ pub fn run(ctx: &Ctx) -> Report {
             Err((class, msg)) => {
                 rep.outcome(format!("VIOLATION:{class}"));
                 rep.violation(format!("policy:{class}:{:?}:{:?}:{}", c.fault, c.policy, if c.stored_path { "stored" } else { "fetch" }),
-                    msg, json!({"subset": c.subset, "fault": format!("{:?}", c.fault), "policy": format!("{:?}", c.policy), "stored": c.stored_path}));
+                    msg, json!({"subset": c.subset, "fault": format!("{:?}", c.fault), "policy": format!("{:?}", c.policy), "stored": c.stored_path, "source": c.source}));
             }
         }
     }
-    if ctx.tier.thorough() {
-        for pol in POLICIES {
-            rep.evaluations += 1; rep.nontrivial += 1;
-            match util::catch(|| ageing_case(&gen, ctx.scratch.join(format!("age-{pol:?}")), pol)).unwrap_or_else(|p| Err(("panic".into(), p))) {
-                Ok(o) => rep.outcome(o),
-                Err((class, msg)) => rep.violation(format!("policy:{class}:{pol:?}"), msg, json!({"ageing": format!("{pol:?}")})),
+    let ageing = ageing_cases();
+    let res = util::par_map(ageing.len() as u64, ageing.len(), |i| {
+        util::catch(|| ageing_case(&gen, ctx.scratch.join(format!("age-{i}")), &ageing[i as usize])).unwrap_or_else(|p| Err(("panic".into(), p)))
+    });
+    for (i, r) in res.into_iter().enumerate() {
+        let c = &ageing[i];
+        rep.evaluations += 1; rep.nontrivial += 1;
+        match r {
+            Ok(o) => rep.outcome(o),
+            Err((class, msg)) if class == "harness" => { eprintln!("machinery error: {msg}"); std::process::exit(2) }
+            Err((class, msg)) => {
+                rep.outcome(format!("VIOLATION:{class}"));
+                rep.violation(format!("policy:{class}:ageing:{:?}:{}", c.pol, if c.reuse_engine { "same-engine" } else { "fresh-engine" }), msg,
+                    json!({"ageing": i}));
             }
         }
     }
@@ -168,12 +238,20 @@ pub fn replay(ctx: &Ctx, v: &Value) -> Report {
     let gen = Gen::load();
     let mut rep = Report::new("exploration");
     rep.evaluations = 1; rep.nontrivial = 2;
-    if v.get("ageing").is_some() { rep.sample(v.clone()); return rep }
+    if let Some(i) = v.get("ageing").and_then(|x| x.as_u64()) {
+        let c = ageing_cases()[i as usize].clone();
+        let r = ageing_case(&gen, ctx.scratch.join("replay"), &c);
+        println!("{c:?}: {r:?}");
+        if let Err((class, msg)) = r { rep.violation(format!("policy:{class}:ageing"), msg, v.clone()); }
+        rep.sample(v.clone());
+        return rep
+    }
     let c = cases().into_iter().find(|c| {
         c.subset as u64 == v["subset"].as_u64().unwrap()
         && format!("{:?}", c.fault) == v["fault"].as_str().unwrap()
         && format!("{:?}", c.policy) == v["policy"].as_str().unwrap()
         && c.stored_path == v["stored"].as_bool().unwrap()
+        && c.source as u64 == v["source"].as_u64().unwrap_or(0)
     }).expect("case");
     let r = run_case(&gen, ctx.scratch.join("replay"), &c);
     println!("{c:?}: {r:?}");
